@@ -53,7 +53,19 @@ Section Alter.
     - rewrite lookup_upd_prev, H. cbn. eauto.
     - rewrite lookup_upd_prev_ne by done. rewrite H. destruct e. eauto.
   Qed.
+  (** the loop's stores vs. the canonical ones, up to the head's back link *)
+  Lemma tweak_step c0 x tl m : c0 <> x ->
+    upd_prev c0 None (upd_prev c0 (Some x) (upd_prev x (Some tl) (upd_next tl (Some x) (<[x := (None, None)]> m)))) =
+    upd_prev x (Some tl) (upd_next tl (Some x) (<[x := (None, None)]> (upd_prev c0 None m))).
+  Proof.
+    intros H. rewrite upd_prev_upd_prev. rewrite (upd_prev_commute c0 x) by done. rewrite upd_prev_upd_next.
+    by rewrite upd_prev_insert_ne by done.
+  Qed.
 End Alter.
+Lemma h_lnk_upd_maps h L D : h_lnk (upd_maps h L D) = L.
+Proof. reflexivity. Qed.
+Lemma h_dat_upd_maps h L D : h_dat (upd_maps h L D) = D.
+Proof. reflexivity. Qed.
 
 (** ** heap extension: [h'] is [h] plus the fresh blocks [N] (link and data maps not constrained) *)
 Record Ext h h' (N : list positive) : Prop := mkExt {
@@ -360,8 +372,11 @@ Lemma owned_fl_root_snoc x d (ls : list tree) y dy :
 Proof.
   intros b. rewrite !flat_singleton, !flat_t_unfold, !owned_fl_cons, flat_app, owned_fl_app, flat_singleton, flat_t_unfold.
   cbn [flat fmap list_fmap nodes mbind list_bind]. rewrite owned_fl_cons. unfold owned_fn. cbn [fn_id fn_data fst snd].
-  change (owned_fl []) with (@nil positive). rewrite app_nil_r. rewrite !elem_of_app, !elem_of_cons, !elem_of_app, !elem_of_cons. tauto.
+  change (owned_fl []) with (@nil positive). rewrite app_nil_r. by rewrite (app_assoc (x :: owned_strs d)).
 Qed.
+
+Lemma head_app_Some {A} (l l' : list A) (z : A) : head l = Some z -> head (l ++ l') = Some z.
+Proof. by destruct l. Qed.
 
 Section Loop.
   Context (oracle : nat -> bool) (h : heap) (F : forest).
@@ -410,11 +425,11 @@ Section Loop.
       destruct (heap_lnk_of_focus _ _ _ _ _ _ ND (reflexivity _) HFL) as [_ HN]. by apply NoDup_app in HN as [? _]. }
     split; [done|]. split; [by apply (WF_ids_live _ _ _ Wk)|]. split; [by apply (WF_lookup_dat _ _ _ _ _ Wk)|].
     split; [done|]. split; [|split; [|split; [by apply (WF_ids_fresh _ _ _ Wk)|split]]].
-    - intros c Hc. pose proof (cids_in_ids _ _ _ _ _ Hin Hc) as Hci.
+    - intros c Hcin. pose proof (cids_in_ids _ _ _ _ _ Hin Hcin) as Hci.
       split; [by apply (WF_ids_live _ _ _ Wk)|]. split; [|split; [by apply (WF_ids_fresh _ _ _ Wk)|]].
       + intros ->. apply elem_of_Permutation in Hin as [FL HFL].
         destruct (heap_lnk_of_focus _ _ _ _ _ _ ND (reflexivity _) HFL) as [_ HN]. apply NoDup_app in HN as (_ & HN & _).
-        apply (HN _ Hc). unfold lnk_keys. apply elem_of_app. left. rewrite roots_app. apply elem_of_app. right. by left.
+        apply (HN _ Hcin). unfold lnk_keys. apply elem_of_app. left. rewrite roots_app. apply elem_of_app. right. by left.
       + assert (Hco : c ∈ owned_fl (flat [T a arr leaves])).
         { apply (ids_subseteq_owned [T a arr leaves]). eapply (cids_in_ids [T a arr leaves] a arr ks); [|done].
           rewrite flat_singleton, flat_t_unfold. by left. }
@@ -422,7 +437,7 @@ Section Loop.
         assert (c <> a); [|lia]. intros ->.
         apply elem_of_Permutation in Hin as [FL HFL].
         destruct (heap_lnk_of_focus _ _ _ _ _ _ ND (reflexivity _) HFL) as [_ HN]. apply NoDup_app in HN as (_ & HN & _).
-        apply (HN _ Hc). unfold lnk_keys. apply elem_of_app. left. rewrite roots_app. apply elem_of_app. right. by left.
+        apply (HN _ Hcin). unfold lnk_keys. apply elem_of_app. left. rewrite roots_app. apply elem_of_app. right. by left.
     - intros k c Hk. by apply (WF_lookup_lnk_child _ _ _ _ _ _ _ Wk Hin Hk).
     - by apply (Ext_live_below _ _ _ LB Ek).
     - apply (WF_lookup_lnk_root _ _ _ Wk). rewrite roots_app. apply elem_of_app. right. by left.
@@ -466,7 +481,7 @@ Section Loop.
     set (ks := tid <$> leaves) in *. set (Fk := F ++ [T a arr leaves]) in *. set (leaf := T x d []).
     apply Ext_act in Ge.
     assert (Hxa : a <> x) by (subst x; lia).
-    assert (Hxks : x ∉ ks) by (intros Hc; destruct (Hks _ Hc) as (_ & _ & Hlt & _); subst x; lia).
+    assert (Hxks : x ∉ ks) by (intros Hcin; destruct (Hks _ Hcin) as (_ & _ & Hlt & _); subst x; lia).
     (* the leaf as a detached root of the canonical heap *)
     set (L1 := <[x := (None, None)]> (h_lnk Hc)). set (D1 := h_dat H').
     set (Hc1 := upd_maps H' L1 D1).
@@ -482,7 +497,7 @@ Section Loop.
           pose proof (ext_next _ _ _ Ge). lia. }
     (* its canonical insertion: add_item_to_array *)
     assert (Hxroots : x ∉ roots Fk).
-    { intros Hc. apply roots_subseteq_ids in Hc. pose proof (WF_ids_fresh _ _ _ Wk Hc). subst x. lia. }
+    { intros Hcin. apply roots_subseteq_ids in Hcin. pose proof (WF_ids_fresh _ _ _ Wk Hcin). subst x. lia. }
     assert (Hroot : find_root x (Fk ++ [leaf]) = Some leaf) by (apply (find_root_snoc Fk leaf); done).
     assert (Hrem : remove_root x (Fk ++ [leaf]) = Fk) by (apply (remove_root_snoc Fk leaf); done).
     assert (Hfa : find_tree a (remove_root x (Fk ++ [leaf])) = Some (T a arr leaves)).
@@ -510,34 +525,34 @@ Section Loop.
     assert (HD1a : D1 !! a = Some (mk_dat arr ks)) by (unfold D1; rewrite Gd, lookup_insert_ne by done; exact Hda).
     assert (HH' : H' = upd_maps Hc1 (h_lnk H') D1) by (unfold Hc1, D1; rewrite upd_maps_upd_maps; by rewrite upd_maps_id).
     assert (HHc1 : Hc1 = upd_maps Hc1 L1 D1) by reflexivity.
-    destruct leaves as [|t0 leaves0] eqn:Eleaves.
+    destruct (decide (leaves = [])) as [->|Hne].
     - (* first element: a->child = n *)
-      cbn [length Z.of_nat Z.eqb]. cbn [fmap list_fmap head] in Gl. fold L1 in Gl.
+      change ks with (@nil positive) in *. cbn [head] in Gl. fold L1 in Gl.
+      change (Z.of_nat (length (@nil tree)) =? 0)%Z with true. cbv iota.
       rewrite HH', Gl.
       rewrite (run_set_child Hc1 L1 D1 a _ (Some x) (Hlive1 a ltac:(auto)) HD1a).
       (* the canonical maps, read off add_item_to_array *)
       rewrite HHc1 in S2. unfold add_item_to_array in S2. cbn [is_null orb] in S2. rewrite (ptr_eqb_Some_ne _ _ Hxa) in S2.
-      rewrite (run_get_child_bind _ _ Hc1 L1 D1 a _ (Hlive1 a ltac:(auto)) HD1a) in S2.
+      rewrite (run_get_child_bind _ Hc1 L1 D1 a _ (Hlive1 a ltac:(auto)) HD1a) in S2.
       cbn [nd_child mk_dat child_of rd_ref arr rd_of_type is_null] in S2. rewrite !bindM_assoc in S2.
       rewrite (run_set_child_bind _ Hc1 L1 D1 a _ (Some x) (Hlive1 a ltac:(auto)) HD1a) in S2. rewrite !bindM_assoc in S2.
       rewrite run_set_prev_bind in S2 by (auto || (unfold L1; rewrite lookup_insert; eauto)).
       rewrite run_set_next_bind in S2 by (auto || (rewrite is_Some_upd_prev; unfold L1; rewrite lookup_insert; eauto)).
-      unfold ret in S2. injection S2 as S2. apply upd_maps_inj in S2 as [SL SD].
+      unfold ret in S2. injection S2 as SL SD.
       unfold act. cbn [app fmap list_fmap head tid leaf]. unfold Hc2. cbn [h_lnk h_dat upd_maps].
       rewrite <- SL, <- SD. do 2 f_equal.
       unfold L1. rewrite upd_next_prev_insert. rewrite (upd_prev_insert _ _ _ (None, Some x)) by (by rewrite lookup_insert).
       cbn. by rewrite insert_insert.
     - (* later elements: suffix_object(p, n) *)
-      rewrite <- Eleaves in *. assert (Hlen : length leaves <> 0) by (rewrite Eleaves; cbn; lia).
+      assert (Hlen : length leaves <> 0) by (destruct leaves; [done|cbn; lia]).
       destruct (Z.eqb_spec (Z.of_nat (length leaves)) 0) as [E0|_]; [lia|].
-      assert (Hh : head ks = Some (tid t0)) by (unfold ks; rewrite Eleaves; reflexivity).
-      set (c0 := tid t0) in *.
-      destruct (last ks) as [tl|] eqn:Hlast; [|apply last_None in Hlast; unfold ks in Hlast; rewrite Eleaves in Hlast; done].
+      destruct (head ks) as [c0|] eqn:Hh; [|apply head_None, fmap_nil_inv in Hh; done].
+      destruct (last ks) as [tl|] eqn:Hlast; [|apply last_None, fmap_nil_inv in Hlast; done].
+      assert (Hh2 : head (tid <$> (leaves ++ [leaf])) = Some c0) by (rewrite fmap_app; by apply head_app_Some).
       assert (Hc0 : c0 ∈ ks) by (by apply head_Some_elem_of).
       assert (Htl : tl ∈ ks) by (by apply last_Some_elem_of).
       assert (c0 <> x) by (intros ->; done). assert (tl <> x) by (intros ->; done).
       rewrite head_lookup in Hh.
-      rewrite Hh in Gl.
       set (A1 := <[x := (None, None)]> (upd_prev c0 None (h_lnk Hc))) in *.
       assert (HA1 : forall c, c = x \/ c ∈ ks -> is_Some (A1 !! c)).
       { intros c [->|Hc']; [unfold A1; rewrite lookup_insert; eauto|].
@@ -552,7 +567,7 @@ Section Loop.
       rewrite run_set_prev by (auto || (rewrite is_Some_upd_next; auto)).
       (* the canonical maps *)
       rewrite HHc1 in S2. unfold add_item_to_array in S2. cbn [is_null orb] in S2. rewrite (ptr_eqb_Some_ne _ _ Hxa) in S2.
-      rewrite (run_get_child_bind _ _ Hc1 L1 D1 a _ (Hlive1 a ltac:(auto)) HD1a) in S2.
+      rewrite (run_get_child_bind _ Hc1 L1 D1 a _ (Hlive1 a ltac:(auto)) HD1a) in S2.
       change (nd_child (mk_dat arr ks)) with (child_of arr ks) in S2.
       rewrite <- head_lookup in Hh. rewrite (child_of_head _ _ _ Hh) in S2. rewrite head_lookup in Hh. cbn [is_null] in S2.
       assert (HL1c0 : L1 !! c0 = Some (link_at ks 0)) by (unfold L1; rewrite lookup_insert_ne by done; by apply Hlk).
@@ -565,15 +580,344 @@ Section Loop.
       rewrite run_set_next_bind in S2 by auto.
       rewrite run_set_prev_bind in S2 by (auto || (rewrite is_Some_upd_next; auto)).
       rewrite ?bindM_assoc in S2.
-      rewrite (run_get_child_bind _ _ Hc1 _ D1 a _ (Hlive1 a ltac:(auto)) HD1a) in S2.
+      rewrite (run_get_child_bind _ Hc1 _ D1 a _ (Hlive1 a ltac:(auto)) HD1a) in S2.
       change (nd_child (mk_dat arr ks)) with (child_of arr ks) in S2.
       rewrite <- head_lookup in Hh. rewrite (child_of_head _ _ _ Hh) in S2.
       rewrite run_set_prev_bind in S2 by (auto || (rewrite is_Some_upd_prev, is_Some_upd_next; auto)).
-      unfold ret in S2. injection S2 as S2. apply upd_maps_inj in S2 as [SL SD].
-      assert (Hh2 : head (tid <$> (leaves ++ [leaf])) = Some c0) by (rewrite Eleaves; reflexivity).
-      unfold act. rewrite Hh2. unfold Hc2. cbn [h_lnk h_dat upd_maps].
-      rewrite <- SL, <- SD. do 2 f_equal.
-      rewrite upd_prev_upd_prev. rewrite (upd_prev_commute c0 x) by done. rewrite upd_prev_upd_next.
-      unfold L1, A1. by rewrite upd_prev_insert_ne by done.
+      unfold ret in S2. injection S2 as SL SD.
+      unfold act. rewrite Hh2. unfold Hc2. rewrite upd_maps_upd_maps, h_lnk_upd_maps, h_dat_upd_maps.
+      rewrite <- SL, <- SD. do 2 f_equal. unfold L1, A1. symmetry. f_equal. by apply tweak_step.
+  Qed.
+
+  (** ** a refused request inside the loop: the partial array is deleted, nothing is left *)
+  Lemma step_fail Hc leaves H' :
+    Inv Hc leaves -> clean_failure (act Hc leaves) H' ->
+    exists h', cJSON_Delete (Some a) H' = Ret (tt, h') /\ clean_failure h h' /\ h_req h' = h_req H'.
+  Proof.
+    intros I C. pose proof I as [Wk Ek _]. destruct (Inv_facts _ _ I) as (Hin & Hla & Hda & NDk & Hks & Hlk & Hanext & LBc & Hlnka).
+    destruct C as [C1 C2 C3 C4 C5 C6 C7 C8 C9]. cbn [act upd_maps h_lnk h_dat h_str h_own h_live h_next h_req h_hooks h_trace] in *.
+    set (ks := tid <$> leaves) in *. set (tk := T a arr leaves). set (Fk := F ++ [tk]) in *.
+    set (bs := free_order [tk]).
+    assert (Hbs : bs ≡ₚ owned_fl (flat [tk])) by apply free_order_owned.
+    assert (Htk : tk ∈ Fk) by (apply elem_of_app; right; by left).
+    pose proof (wf_nodup _ _ Wk) as ND.
+    assert (Hown_sub : forall b, b ∈ owned_fl (flat [tk]) -> b ∈ owned Fk).
+    { intros b Hb. unfold owned, Fk. rewrite flat_app, owned_fl_app. apply elem_of_app. by right. }
+    (* the local encoding survives the tweak and the failed call *)
+    assert (E : Enc H' [tk]).
+    { apply (Enc_transfer Hc H' [tk] (WF_Enc_root _ _ _ Wk Htk)).
+      - exact C2.
+      - intros b e Hb. rewrite C1. destruct (head ks) as [c0|]; [by apply lookup_upd_prev_Some|]. rewrite Hb. destruct e; eauto.
+      - intros b Hb Hl. by rewrite C5.
+      - intros b Hb Ho. rewrite C4; [done|]. apply (wf_fresh _ _ Wk). by apply Hown_sub. }
+    assert (Hfuel : length (nodes [tk]) < Pos.to_nat (h_next H')).
+    { assert (length (nodes [tk]) = length (ids [tk])) as -> by (unfold ids; by rewrite fmap_length).
+      apply NoDup_length_lt_pos.
+      - unfold Fk in ND. rewrite ids_app in ND. by apply NoDup_app in ND as (_ & _ & ?).
+      - intros k Hk. assert (Hk' : k ∈ ids Fk) by (unfold Fk; rewrite ids_app; apply elem_of_app; by right).
+        pose proof (WF_ids_fresh _ _ _ Wk Hk'). lia. }
+    exists (free_all bs H'). split.
+    { unfold cJSON_Delete, heap_fuel. unfold bindM at 1. change (Some a) with (head (tid <$> [tk])).
+      by apply cJSON_Delete_fuel_sim. }
+    (* the canonical deletion *)
+    assert (Hroot : find_root a Fk = Some tk) by (apply (find_root_snoc F tk); intros Hi; by apply a_notin, roots_subseteq_ids).
+    assert (Hrem : remove_root a Fk = F) by (apply (remove_root_snoc F tk); intros Hi; by apply a_notin, roots_subseteq_ids).
+    destruct (cJSON_Delete_sim Hc Fk a tk Wk Hroot) as (_ & _ & Wd & _). rewrite Hrem in Wd. fold bs in Wd.
+    assert (Hnew : forall b, b ∈ bs -> (a <= b)%positive).
+    { intros b Hb. rewrite Hbs in Hb. destruct (ext_new _ _ _ Ek b Hb). lia. }
+    split; [|apply free_all_req].
+    assert (Hc0 : forall c0, head ks = Some c0 -> c0 ∈ bs).
+    { intros c0 Hh. rewrite Hbs. apply (ids_subseteq_owned [tk]).
+      eapply (cids_in_ids [tk] a arr ks); [unfold tk; rewrite flat_singleton, flat_t_unfold; by left|]. by apply head_Some_elem_of. }
+    constructor.
+    - rewrite (wf_lnk _ _ W), <- (wf_lnk _ _ Wd). apply map_eq. intros b.
+      destruct (decide (b ∈ bs)) as [Hb|Hb]; [by rewrite !free_all_lnk_lookup_in|].
+      rewrite !free_all_lnk_lookup by done. rewrite C1.
+      destruct (head ks) as [c0|] eqn:Hh; [|done]. rewrite lookup_upd_prev_ne; [done|]. intros ->. by apply Hb, Hc0.
+    - rewrite (wf_dat _ _ W), <- (wf_dat _ _ Wd). apply map_eq. intros b.
+      destruct (decide (b ∈ bs)) as [Hb|Hb]; [by rewrite !free_all_dat_lookup_in|].
+      rewrite !free_all_dat_lookup by done. by rewrite C2.
+    - intros b Hb. assert (b ∉ bs) by (intros Hi; pose proof (Hnew _ Hi); lia).
+      rewrite free_all_str_lookup by done. pose proof (ext_next _ _ _ Ek).
+      rewrite C3 by lia. by apply (ext_below _ _ _ Ek).
+    - intros b Hb. rewrite free_all_own. pose proof (ext_next _ _ _ Ek).
+      rewrite C4 by lia. by apply (ext_below _ _ _ Ek).
+    - apply set_eq. intros b. rewrite free_all_live, C5, (ext_live _ _ _ Ek), Hbs. split.
+      + intros [[Hb|Hb] Hn]; done.
+      + intros Hb. split; [by left|]. intros Hi. destruct (ext_new _ _ _ Ek b Hi). pose proof (LB b Hb). lia.
+    - rewrite free_all_next. pose proof (ext_next _ _ _ Ek). lia.
+    - rewrite free_all_req. pose proof (ext_req _ _ _ Ek). lia.
+    - rewrite free_all_hooks, C8. apply (ext_hooks _ _ _ Ek).
+    - destruct (free_all_trace bs H') as [e1 ->]. destruct C9 as [e2 ->]. destruct (ext_trace _ _ _ Ek) as [e3 ->].
+      exists (e1 ++ e2 ++ e3). by rewrite <- !app_assoc.
+  Qed.
+
+  (** ** the loop *)
+  Variable mk : Z -> M ptr.
+  Variable n : nat.
+  (** element [k] is made by a leaf constructor, in every heap the loop can be in *)
+  Hypothesis Hmk : forall k Hc leaves, k < n -> length leaves = k -> Inv Hc leaves ->
+    leaf_contract oracle (mk (Z.of_nat k)) (Q k) (act Hc leaves).
+
+  Lemma create_array_loop_sim rem : forall k leaves Hc,
+    Inv Hc leaves -> length leaves = k -> k + rem = n ->
+    (exists leaves' Hc',
+        create_array_loop mk rem (Z.of_nat k) (Some a) (last (tid <$> leaves)) (last (tid <$> leaves)) (act Hc leaves)
+          = Ret (Some (last (tid <$> (leaves ++ leaves'))), act Hc' (leaves ++ leaves')) /\
+        Inv Hc' (leaves ++ leaves') /\ length leaves' = rem)
+    \/ (exists h', create_array_loop mk rem (Z.of_nat k) (Some a) (last (tid <$> leaves)) (last (tid <$> leaves)) (act Hc leaves)
+          = Ret (None, h') /\ clean_failure h h' /\ refused oracle h h').
+  Proof.
+    induction rem as [|rem IH]; intros k leaves Hc I Hlen Hn.
+    { left. exists [], Hc. rewrite app_nil_r. split; [reflexivity|]. split; [done|reflexivity]. }
+    cbn [create_array_loop].
+    destruct (Hmk k Hc leaves ltac:(lia) Hlen I) as [(d & H' & Hrun & G & HQ)|(H' & Hrun & C & R)].
+    - (* the element was made *)
+      rewrite (bindM_Ret _ _ _ _ _ Hrun). cbn [is_null].
+      assert (Hx : h_next (act Hc leaves) = h_next Hc) by reflexivity.
+      rewrite <- Hlen in HQ. destruct (step_ok Hc leaves H' _ d I G HQ) as (Hc' & I' & Hlink).
+      rewrite Hlen in Hlink. rewrite (bindM_Ret _ _ _ _ _ Hlink).
+      set (leaf := T (h_next (act Hc leaves)) d []) in *.
+      assert (Hlast : Some (h_next (act Hc leaves)) = last (tid <$> (leaves ++ [leaf]))).
+      { rewrite fmap_app. cbn. by rewrite last_snoc. }
+      rewrite Hlast. replace (Z.of_nat k + 1)%Z with (Z.of_nat (S k)) by lia.
+      destruct (IH (S k) (leaves ++ [leaf]) Hc' I') as [(leaves' & Hc'' & Hr & I'' & Hl')|(h' & Hr & Hcf & Hrf)].
+      + rewrite app_length. cbn. lia.
+      + lia.
+      + left. exists (leaf :: leaves'), Hc''. rewrite <- app_assoc in Hr, I''. cbn [app] in Hr, I''.
+        split; [exact Hr|]. split; [exact I''|]. cbn. by rewrite Hl'.
+      + right. exists h'. done.
+    - (* the request was refused: delete the partial array *)
+      right. rewrite (bindM_Ret _ _ _ _ _ Hrun). cbn [is_null].
+      destruct (step_fail Hc leaves H' I C) as (h' & Hdel & Hcf & Hreq).
+      rewrite (bindM_Ret _ _ _ _ _ Hdel). exists h'. split; [reflexivity|]. split; [exact Hcf|].
+      destruct R as (j & Hj & Ho). exists j. split; [|done].
+      pose proof (ext_req _ _ _ (inv_ext _ _ I)). cbn in Hj. lia.
   Qed.
 End Loop.
+
+(** * PART 3: create_array_of and the public bulk constructors *)
+
+Lemma create_array_of_refused oracle mk arg_is_null count h :
+  (count < 0)%Z \/ arg_is_null = true -> create_array_of oracle mk arg_is_null count h = Ret (None, h).
+Proof.
+  intros H. unfold create_array_of. destruct (Z.ltb_spec count 0) as [Hlt|Hge]; [done|].
+  destruct H as [H| ->]; [lia|done].
+Qed.
+
+Section ArrayOf.
+  Context (oracle : nat -> bool) (h : heap) (F : forest).
+  Hypothesis W : WF h F.
+  Hypothesis LB : live_below h.
+  Local Notation a := (h_next h).
+  Variable Q : nat -> heap -> rdata -> Prop.
+  Hypothesis Q_upd : forall k H d L D, Q k H d -> Q k (upd_maps H L D) d.
+  Hypothesis Q_ext : forall k H H' N d, Q k H d -> Ext H H' N -> Q k H' d.
+  Variable mk : Z -> M ptr.
+  Variable count : Z.
+  Hypothesis Hcount : (0 <= count)%Z.
+  Hypothesis Hmk : forall k Hc leaves, k < Z.to_nat count -> length leaves = k -> Inv h F Q Hc leaves ->
+    leaf_contract oracle (mk (Z.of_nat k)) (Q k) (act Hc leaves).
+
+  Lemma NoLeak_Ext' Hc t :
+    NoLeak h F -> Ext h Hc (owned_fl (flat [t])) -> NoLeak Hc (F ++ [t]).
+  Proof.
+    intros NL E b Hb. unfold owned. rewrite flat_app, owned_fl_app. apply elem_of_app.
+    unfold lib_live in Hb. apply elem_of_filter in Hb as [Hb1 Hb2].
+    apply (ext_live _ _ _ E) in Hb2 as [Hb2|Hb2]; [left|by right].
+    apply NL. apply elem_of_filter. split; [|done].
+    by destruct (ext_below _ _ _ E b (LB b Hb2)) as [_ <-].
+  Qed.
+
+  Lemma create_array_of_sim :
+    (exists leaves Hc,
+        create_array_of oracle mk false count h = Ret (Some a, Hc) /\
+        WF Hc (F ++ [T a arr leaves]) /\ length leaves = Z.to_nat count /\
+        (forall j t, leaves !! j = Some t -> exists x d, t = T x d [] /\ Q j Hc d) /\
+        Ext h Hc (owned_fl (flat [T a arr leaves])) /\ live_below Hc /\
+        (NoLeak h F -> NoLeak Hc (F ++ [T a arr leaves])))
+    \/ (exists h', create_array_of oracle mk false count h = Ret (None, h') /\ clean_failure h h' /\ refused oracle h h').
+  Proof.
+    unfold create_array_of. destruct (Z.ltb_spec count 0) as [Hlt|_]; [lia|]. cbn [orb]. unfold cJSON_CreateArray.
+    destruct (create_with_type_sim oracle c_cJSON_Array h F W LB) as [(Ho & Hrun & W0 & LB0 & _)|(Ho & Hrun & Hcf & Hrf)].
+    2:{ right. exists (bump h). rewrite (bindM_Ret _ _ _ _ _ Hrun). cbn [is_null]. rewrite bindM_ret. cbn [is_null]. done. }
+    rewrite (bindM_Ret _ _ _ _ _ Hrun). cbn [is_null]. fold arr in Hrun, W0, LB0. set (Hc0 := new_node h arr) in *.
+    assert (I0 : Inv h F Q Hc0 []).
+    { constructor; [exact W0| |intros j t Hj; done].
+      apply (Ext_mem _ _ [a]); [|apply Ext_new_node].
+      intros b. rewrite flat_singleton, flat_t_unfold. unfold arr. cbn. rewrite owned_strs_of_type. cbn. done. }
+    change (new_node h (rd_of_type c_cJSON_Array)) with (act Hc0 []).
+    destruct (create_array_loop_sim oracle h F W LB Q Q_upd Q_ext mk (Z.to_nat count) Hmk (Z.to_nat count) 0 [] Hc0 I0 eq_refl eq_refl)
+      as [(leaves & Hc & Hr & I & Hl)|(h' & Hr & Hcf & Hrf)].
+    2:{ right. exists h'. cbn in Hr. rewrite (bindM_Ret _ _ _ _ _ Hr). done. }
+    left. cbn [app fmap list_fmap last Z.of_nat] in Hr. rewrite (bindM_Ret _ _ _ _ _ Hr).
+    cbn [app] in I. exists leaves, Hc.
+    pose proof I as [Wn En Qn]. destruct (Inv_facts h F LB Q _ _ I) as (Hin & Hla & Hda & NDk & Hks & Hlk & Hanext & LBc & Hlnka).
+    set (ks := tid <$> leaves) in *.
+    split; [|split; [exact Wn|split; [exact Hl|split; [exact Qn|split; [exact En|split; [exact LBc|]]]]]].
+    2:{ intros NL. by apply NoLeak_Ext'. }
+    (* the head's back link *)
+    unfold act. fold ks.
+    rewrite !bindM_assoc. rewrite (run_get_child_bind _ Hc _ _ a _ Hla Hda). change (nd_child (mk_dat arr ks)) with (child_of arr ks).
+    destruct (head ks) as [c0|] eqn:Hh.
+    - rewrite (child_of_head _ _ _ Hh). cbn [is_null negb when].
+      rewrite !bindM_assoc. rewrite (run_get_child_bind _ Hc _ _ a _ Hla Hda). change (nd_child (mk_dat arr ks)) with (child_of arr ks).
+      rewrite (child_of_head _ _ _ Hh).
+      assert (Hc0in : c0 ∈ ks) by (by apply head_Some_elem_of).
+      rewrite head_lookup in Hh. pose proof (Hlk _ _ Hh) as Hl0.
+      rewrite run_set_prev_bind by (by apply Hks || (rewrite is_Some_upd_prev, Hl0; eauto)).
+      rewrite upd_prev_upd_prev. rewrite (upd_prev_id _ _ _ _ Hl0) by (by rewrite link_at_0).
+      by rewrite upd_maps_id.
+    - apply head_None in Hh. rewrite Hh. cbn [child_of rd_ref arr rd_of_type is_null negb when].
+      by rewrite upd_maps_id.
+  Qed.
+End ArrayOf.
+
+(** ** the four public constructors *)
+Lemma nth_error_lookup' {A} (l : list A) k : nth_error l k = l !! k.
+Proof. revert k. induction l as [|x l IH]; intros [|k]; cbn; auto. Qed.
+
+Lemma rd_arr_in_range {A B} (l : list A) k (v : A) (f : A -> M B) h :
+  l !! k = Some v -> (w <~ rd_arr l (Z.of_nat k) ;; f w) h = f v h.
+Proof. intros H. unfold rd_arr. rewrite Nat2Z.id, nth_error_lookup', H. reflexivity. Qed.
+
+Lemma leaf_contract_ext oracle (m m' : M ptr) Q H : (m' H = m H) -> leaf_contract oracle m Q H -> leaf_contract oracle m' Q H.
+Proof. intros E. unfold leaf_contract. by rewrite E. Qed.
+
+(** the result statement shared by the four *)
+Definition array_result (oracle : nat -> bool) (m : M ptr) h F (Q : nat -> heap -> rdata -> Prop) (count : Z) : Prop :=
+  (exists leaves Hc,
+      m h = Ret (Some (h_next h), Hc) /\
+      WF Hc (F ++ [T (h_next h) arr leaves]) /\ length leaves = Z.to_nat count /\
+      (forall j t, leaves !! j = Some t -> exists x d, t = T x d [] /\ Q j Hc d) /\
+      Ext h Hc (owned_fl (flat [T (h_next h) arr leaves])) /\ live_below Hc /\
+      (NoLeak h F -> NoLeak Hc (F ++ [T (h_next h) arr leaves])))
+  \/ (exists h', m h = Ret (None, h') /\ clean_failure h h' /\ refused oracle h h').
+
+Definition number_leaf (l : list dbl) (k : nat) (_ : heap) (d : rdata) : Prop :=
+  exists x, l !! k = Some x /\ d = rd_number x.
+
+Section Public.
+  Context (oracle : nat -> bool) (h : heap) (F : forest).
+  Hypothesis W : WF h F.
+  Hypothesis LB : live_below h.
+
+  (** NULL array or negative count: NULL, nothing happens *)
+  Lemma cJSON_CreateIntArray_refused numbers count :
+    numbers = None \/ (count < 0)%Z -> cJSON_CreateIntArray oracle numbers count h = Ret (None, h).
+  Proof. intros [->|H]; apply create_array_of_refused; auto. Qed.
+  Lemma cJSON_CreateFloatArray_refused numbers count :
+    numbers = None \/ (count < 0)%Z -> cJSON_CreateFloatArray oracle numbers count h = Ret (None, h).
+  Proof. intros [->|H]; apply create_array_of_refused; auto. Qed.
+  Lemma cJSON_CreateDoubleArray_refused numbers count :
+    numbers = None \/ (count < 0)%Z -> cJSON_CreateDoubleArray oracle numbers count h = Ret (None, h).
+  Proof. intros [->|H]; apply create_array_of_refused; auto. Qed.
+  Lemma cJSON_CreateStringArray_refused strings count :
+    strings = None \/ (count < 0)%Z -> cJSON_CreateStringArray oracle strings count h = Ret (None, h).
+  Proof. intros [->|H]; apply create_array_of_refused; auto. Qed.
+
+  Lemma number_array_sim (conv : dbl -> dbl) (l : list dbl) count :
+    (0 <= count)%Z -> Z.to_nat count <= length l ->
+    array_result oracle
+      (create_array_of oracle (fun i => x <~ rd_arr l i ;; cJSON_CreateNumber oracle (conv x)) false count)
+      h F (number_leaf (conv <$> l)) count.
+  Proof.
+    intros Hc Hlen. apply (create_array_of_sim oracle h F W LB (number_leaf (conv <$> l))); try done.
+    intros k Hc' leaves Hk _ _.
+    destruct (lookup_lt_is_Some_2 l k ltac:(lia)) as [x Hx].
+    eapply leaf_contract_ext; [apply (rd_arr_in_range l k x _ _ Hx)|].
+    destruct (cJSON_CreateNumber_contract oracle (conv x) (act Hc' leaves)) as [(d & H' & H1 & H2 & ->)|Hf]; [left|by right].
+    exists (rd_number (conv x)), H'. split; [done|]. split; [done|]. exists (conv x). split; [|done].
+    by rewrite list_lookup_fmap, Hx.
+  Qed.
+
+  Lemma cJSON_CreateIntArray_sim (l : list Z) count :
+    (0 <= count)%Z -> Z.to_nat count <= length l ->
+    array_result oracle (cJSON_CreateIntArray oracle (Some l) count) h F (number_leaf (dbl_of_int <$> l)) count.
+  Proof.
+    intros Hc Hlen. unfold cJSON_CreateIntArray. cbn [arr_of opt_is_none].
+    apply (create_array_of_sim oracle h F W LB (number_leaf (dbl_of_int <$> l))); try done.
+    intros k Hc' leaves Hk _ _.
+    destruct (lookup_lt_is_Some_2 l k ltac:(lia)) as [x Hx].
+    eapply leaf_contract_ext; [apply (rd_arr_in_range l k x _ _ Hx)|].
+    destruct (cJSON_CreateNumber_contract oracle (dbl_of_int x) (act Hc' leaves)) as [(d & H' & H1 & H2 & ->)|Hf]; [left|by right].
+    exists (rd_number (dbl_of_int x)), H'. split; [done|]. split; [done|]. exists (dbl_of_int x). split; [|done].
+    by rewrite list_lookup_fmap, Hx.
+  Qed.
+  Lemma cJSON_CreateFloatArray_sim (l : list dbl) count :
+    (0 <= count)%Z -> Z.to_nat count <= length l ->
+    array_result oracle (cJSON_CreateFloatArray oracle (Some l) count) h F (number_leaf l) count.
+  Proof.
+    intros Hc Hlen. pose proof (number_array_sim (fun x => x) l count Hc Hlen) as H. by rewrite list_fmap_id in H.
+  Qed.
+  Lemma cJSON_CreateDoubleArray_sim (l : list dbl) count :
+    (0 <= count)%Z -> Z.to_nat count <= length l ->
+    array_result oracle (cJSON_CreateDoubleArray oracle (Some l) count) h F (number_leaf l) count.
+  Proof.
+    intros Hc Hlen. pose proof (number_array_sim (fun x => x) l count Hc Hlen) as H. by rewrite list_fmap_id in H.
+  Qed.
+
+  (** strings: every element a readable C string *)
+  Definition strings_leaf (l : list ptr) (k : nat) (H : heap) (d : rdata) : Prop :=
+    exists sb, l !! k = Some (Some sb) /\ string_leaf (str_at h sb) H d.
+
+  Lemma cJSON_CreateStringArray_sim (l : list ptr) count :
+    (0 <= count)%Z -> Z.to_nat count <= length l ->
+    (forall k p, k < Z.to_nat count -> l !! k = Some p -> exists sb, p = Some sb /\ Readable h sb) ->
+    array_result oracle (cJSON_CreateStringArray oracle (Some l) count) h F (strings_leaf l) count.
+  Proof.
+    intros Hc Hlen Hrd. unfold cJSON_CreateStringArray. cbn [arr_of opt_is_none].
+    apply (create_array_of_sim oracle h F W LB (strings_leaf l)); try done.
+    - intros k H d L D (sb & H1 & sb' & H2 & H3 & H4). exists sb. split; [done|]. by exists sb'.
+    - intros k H H' N d (sb & H1 & sb' & H2 & H3 & H4) E. exists sb. split; [done|]. exists sb'. split; [done|].
+      pose proof (ext_next _ _ _ E). split; [lia|]. destruct (ext_below _ _ _ E sb' H3) as [-> _]. done.
+    - intros k Hc' leaves Hk _ I.
+      destruct (lookup_lt_is_Some_2 l k ltac:(lia)) as [p Hp]. destruct (Hrd k p Hk Hp) as (sb & -> & HR).
+      eapply leaf_contract_ext; [apply (rd_arr_in_range l k (Some sb) _ _ Hp)|].
+      destruct (cJSON_CreateString_contract oracle (act Hc' leaves) sb
+                  (live_below_act h F LB _ _ _ I) (maps_below_act h F _ _ _ I) (Readable_act h F LB _ _ _ sb I HR))
+        as [(d & H' & H1 & H2 & H3)|Hf]; [left|by right].
+      exists d, H'. split; [done|]. split; [done|]. exists sb. split; [done|].
+      rewrite (str_at_act h F LB _ _ _ sb I) in H3; [done|]. by destruct HR.
+  Qed.
+End Public.
+
+(** * with an allocator that never refuses, the bulk constructors succeed *)
+Lemma array_result_total m h F Q count :
+  array_result never m h F Q count ->
+  exists leaves Hc,
+    m h = Ret (Some (h_next h), Hc) /\ WF Hc (F ++ [T (h_next h) arr leaves]) /\ length leaves = Z.to_nat count /\
+    (forall j t, leaves !! j = Some t -> exists x d, t = T x d [] /\ Q j Hc d).
+Proof.
+  intros [(leaves & Hc & H1 & H2 & H3 & H4 & _)|(h' & _ & _ & H)]; [by exists leaves, Hc|].
+  by apply refused_false in H.
+Qed.
+Lemma cJSON_CreateIntArray_total h F (l : list Z) count :
+  WF h F -> live_below h -> (0 <= count)%Z -> Z.to_nat count <= length l ->
+  exists leaves Hc,
+    cJSON_CreateIntArray never (Some l) count h = Ret (Some (h_next h), Hc) /\
+    WF Hc (F ++ [T (h_next h) arr leaves]) /\ length leaves = Z.to_nat count /\
+    (forall j t, leaves !! j = Some t -> exists x d, t = T x d [] /\ number_leaf (dbl_of_int <$> l) j Hc d).
+Proof. intros W LB Hc Hl. by apply array_result_total, cJSON_CreateIntArray_sim. Qed.
+Lemma cJSON_CreateDoubleArray_total h F (l : list dbl) count :
+  WF h F -> live_below h -> (0 <= count)%Z -> Z.to_nat count <= length l ->
+  exists leaves Hc,
+    cJSON_CreateDoubleArray never (Some l) count h = Ret (Some (h_next h), Hc) /\
+    WF Hc (F ++ [T (h_next h) arr leaves]) /\ length leaves = Z.to_nat count /\
+    (forall j t, leaves !! j = Some t -> exists x d, t = T x d [] /\ number_leaf l j Hc d).
+Proof. intros W LB Hc Hl. by apply array_result_total, cJSON_CreateDoubleArray_sim. Qed.
+Lemma cJSON_CreateFloatArray_total h F (l : list dbl) count :
+  WF h F -> live_below h -> (0 <= count)%Z -> Z.to_nat count <= length l ->
+  exists leaves Hc,
+    cJSON_CreateFloatArray never (Some l) count h = Ret (Some (h_next h), Hc) /\
+    WF Hc (F ++ [T (h_next h) arr leaves]) /\ length leaves = Z.to_nat count /\
+    (forall j t, leaves !! j = Some t -> exists x d, t = T x d [] /\ number_leaf l j Hc d).
+Proof. intros W LB Hc Hl. by apply array_result_total, cJSON_CreateFloatArray_sim. Qed.
+Lemma cJSON_CreateStringArray_total h F (l : list ptr) count :
+  WF h F -> live_below h -> (0 <= count)%Z -> Z.to_nat count <= length l ->
+  (forall k p, k < Z.to_nat count -> l !! k = Some p -> exists sb, p = Some sb /\ Readable h sb) ->
+  exists leaves Hc,
+    cJSON_CreateStringArray never (Some l) count h = Ret (Some (h_next h), Hc) /\
+    WF Hc (F ++ [T (h_next h) arr leaves]) /\ length leaves = Z.to_nat count /\
+    (forall j t, leaves !! j = Some t -> exists x d, t = T x d [] /\ strings_leaf h l j Hc d).
+Proof. intros W LB Hc Hl Hrd. by apply array_result_total, cJSON_CreateStringArray_sim. Qed.
